@@ -1,6 +1,7 @@
 package props
 
 import (
+	"bytes"
 	"fmt"
 	"math/bits"
 	"syscall"
@@ -32,8 +33,8 @@ func c17Fns() map[string]maskFn {
 		"maskGo": websocket.VerifMaskGo,
 		"mask":   websocket.VerifMask,
 	}
-	if websocket.VerifHasMaskAsm {
-		m["maskAsm"] = websocket.VerifMaskAsm
+	if asm := c17AsmFn(); asm != nil {
+		m["maskAsm"] = asm
 	}
 	return m
 }
@@ -119,6 +120,9 @@ func c17Gen(tier string, seed int64) []fw.Case {
 	var cases []fw.Case
 	step := 100
 	for _, fn := range []string{"maskGo", "maskAsm", "mask"} {
+		if fn == "maskAsm" && c17AsmFn() == nil {
+			continue // (32 bit auxiliary build: the library has portable code only)
+		}
 		for a := 0; a <= 4200; a += step {
 			b := a + step
 			if b > 4201 {
@@ -128,8 +132,58 @@ func c17Gen(tier string, seed int64) []fw.Case {
 			s := uint64(seed)*1000003 + uint64(a)*31 + uint64(len(fn))
 			cases = append(cases, fw.Case{Name: fmt.Sprintf("%s/%d-%d", fn, a, b), Desc: d, Run: func(r *fw.R) { c17Run(r, d, s, tier) }})
 		}
+		// a handful of large buffers (a server reading a big frame into a big caller buffer masks megabytes at once)
+		fn := fn
+		s := uint64(seed)*7919 + uint64(len(fn))
+		cases = append(cases, fw.Case{Name: fn + "/large", Desc: c17Desc{Fn: fn, LenFrom: 65536, LenTo: 16<<20 + 8, Splits: "large"}, Run: func(r *fw.R) { c17Large(r, fn, s) }})
 	}
 	return cases
+}
+
+// c17Large: whole-buffer and two-piece masking of buffers of 64 KiB .. 16 MiB (+0..7 bytes, start offsets 0..7)
+// against the definition, with 64 canary bytes on either side.
+func c17Large(r *fw.R, name string, seed uint64) {
+	fn := c17Fns()[name]
+	if fn == nil {
+		r.Inconclusivef("no %s on this platform", name)
+		return
+	}
+	rng := fw.NewRand(seed)
+	r.SetSample(map[string]any{"fn": name, "lengths": "64 KiB .. 16 MiB (+0..7)", "alignments": "0..7"})
+	for i, base := range []int{65536, 131072, 1 << 20, 2<<20 - 3, 2 << 20, 2<<20 + 1, 4<<20 + 5, 16 << 20} {
+		n := base + (i*3)%8
+		off := 64 + i%8
+		buf := rng.Bytes(off + n + 64)
+		orig := append([]byte(nil), buf...)
+		key := uint32(rng.U64()) | 0x01020408
+		want := append([]byte(nil), buf[off:off+n]...)
+		wantKey := refMask(want, key)
+		cut := 0
+		if i%2 == 1 {
+			cut = 1 + rng.Intn(n-1)
+		}
+		var gotKey uint32
+		if cut == 0 {
+			gotKey = fn(buf[off:off+n:off+n], key)
+		} else {
+			k2 := fn(buf[off:off+cut:off+cut], key)
+			gotKey = fn(buf[off+cut:off+n:off+n], k2)
+		}
+		r.Count("large_buffers_masked", 1)
+		r.Key("%s/large/len=2^%d/cut=%v", name, bitLen(uint64(n)), cut != 0)
+		if gotKey != wantKey {
+			r.Violate("C17/returned-key/"+name+"/large", fmt.Sprintf("%s(len=%d, cut=%d, key=%#x) returned key %#x, definition gives %#x", name, n, cut, key, gotKey, wantKey), "")
+			return
+		}
+		if j := firstDiff(buf[off:off+n], want); j >= 0 {
+			r.Violate("C17/wrong-bytes/"+name+"/large", fmt.Sprintf("%s(len=%d, cut=%d, key=%#x): byte %d is %#x, definition gives %#x", name, n, cut, key, j, buf[off+j], want[j]), "")
+			return
+		}
+		if !bytes.Equal(buf[:off], orig[:off]) || !bytes.Equal(buf[off+n:], orig[off+n:]) {
+			r.Violate("C17/out-of-bounds-write/"+name+"/large", fmt.Sprintf("%s(len=%d) changed bytes outside the buffer", name, n), "")
+			return
+		}
+	}
 }
 
 func c17Run(r *fw.R, d c17Desc, seed uint64, tier string) {
